@@ -425,7 +425,25 @@ def run_harness(spec, work_root, prop_id, replay_root):
         outj = os.path.join(work, 'cbmc_main.json')
         ladder = spec.get('unwind_auto') or [spec.get('unwind')]
         res['wall_main'] = 0.0
-        for step, uw in enumerate(ladder):
+        # optional counterexample hunt: path-wise symbolic execution that stops at the first violated property.  It can only ANSWER with a
+        # solver counterexample (then that is the verdict); running out of its time budget or finding nothing decides nothing and the full
+        # run below follows.  For harnesses where a defect (e.g. a NULL dereference feeding a switch) would make the monolithic encoding explode.
+        hunted = None
+        if spec.get('hunt'):
+            outh = os.path.join(work, 'cbmc_hunt.json')
+            spec['unwind'] = ladder[0]
+            res['hunt'] = []
+            for strategy in ('fifo', 'lifo'):          # shortest paths first, then depth first: each gets half of the budget
+                rh = run(cbmc_cmd(spec, gb, False) + ['--paths', strategy, '--stop-on-fail'], timeout=max(5, spec['hunt'] // 2), cwd=work, mem_gb=spec.get('mem_gb', 4) + 1, stdout=outh)
+                res['wall_main'] += rh['wall']; res['hunt'].append(dict(strategy=strategy, wall=round(rh['wall'], 1), rc=rh['rc'], timed_out=rh['timed_out']))
+                if rh['rc'] == 10 and not rh['timed_out']:
+                    dh = parse_json_stream(outh) or []
+                    fl = [x for x in dh if isinstance(x, dict) and str(x.get('status', '')).upper() in ('FAILURE', 'FAILED') and 'property' in x
+                          and not any(pat in x['property'] for pat in spec.get('ignore_failed', []))]
+                    if fl:
+                        hunted = fl; res['hunt'][-1]['found'] = [x['property'] for x in fl]
+                        break
+        for step, uw in enumerate(ladder if not hunted else []):
             spec['unwind'] = uw
             r = run(cbmc_cmd(spec, gb, False), timeout=to, cwd=work, mem_gb=spec.get('mem_gb', 4) + 1, stdout=outj)
             res['wall_main'] += r['wall']
@@ -466,13 +484,18 @@ def run_harness(spec, work_root, prop_id, replay_root):
             if only_unwind and step + 1 < len(ladder):
                 continue          # bound too small for this input size: the unwinding assertion says so; climb the ladder
             break
+        if hunted:
+            results = failed = hunted
         res['n_props'] = len(results)
         res['failed'] = [dict(property=x['property'], description=x.get('description', ''),
                               loc=(x.get('sourceLocation') or {}).get('function', '') + ':' + str((x.get('sourceLocation') or {}).get('line', '')))
                          for x in failed]
         # cover run (vacuity guard)
         outc = os.path.join(work, 'cbmc_cover.json')
-        rc_ = run(cbmc_cmd(spec, gbc, True), timeout=to, cwd=work, mem_gb=spec.get('mem_gb', 4) + 1, stdout=outc)
+        if hunted:      # a counterexample is in hand: the vacuity guard has nothing to add (and would meet the same explosion)
+            rc_ = dict(timed_out=True, rc=None, wall=0.0, rss_kb=0, err='')
+        else:
+            rc_ = run(cbmc_cmd(spec, gbc, True), timeout=to, cwd=work, mem_gb=spec.get('mem_gb', 4) + 1, stdout=outc)
         res['wall_cover'] = rc_['wall']
         res['rss_kb'] = max(res['rss_kb'], rc_['rss_kb'])
         cov = parse_json_stream(outc) if (not rc_['timed_out'] and rc_['rc'] in (0, 10)) else None
